@@ -196,7 +196,7 @@ pub fn build_set(i: usize, thorough: bool) -> SetSpec {
             SetSpec {
                 set: InputSet { name: format!("single faults of {} ONNX seed models", seeds.len()), kind: SetKind::Faults { seeds: seeds.iter().map(|s| (s.name.to_string(), s.msg.buf.clone())).collect(), faults } },
                 kind: Kind::Onnx,
-                mask: 7,
+                mask: if thorough { 7 } else { E_BUF | E_FILE },
                 batch: 128,
             }
         }
